@@ -79,6 +79,10 @@ def gen_cases(tier, seed):
     n_rand = 160 if not full else 2400
     for i in range(n_rand):
         cases.append({"kind": "random", "sub": int(rng.integers(1 << 31)), "cost": 0.2})
+    # documented defaults (options NOT passed) meet sizes at their thresholds: a partial chunk of 50..n_points-1 points
+    for npnt, n in ((100, 1070), (130, 710), (333, 1050), (51, 152), (100, 1049), (100, 1050)):
+        for lf in (True, False):
+            cases.append({"kind": "ppi-default", "n_points": npnt, "n": n, "last_full": lf, "sub": int(rng.integers(1 << 31)), "cost": 0.1})
     cases.append({"kind": "repo-tests", "files": ["tests/test_intervals.py"], "cost": 10})
     return cases
 
@@ -102,10 +106,10 @@ def make_slicer(cfg):
     vr = cfg.get("value_range")
     vr = tuple(vr) if vr is not None else None
     if cfg["slicer"] == "woi":
-        return slicemon.remember_configuration(WidthOfIntervalSlicer(cfg["width"], reference=_ref(cfg["reference"]), right_open=cfg["right_open"], value_range=vr, **kw))
+        return slicemon.remember_configuration(WidthOfIntervalSlicer(cfg["width"], reference=_ref(cfg["reference"]), right_open=cfg["right_open"], value_range=vr, **kw), _explicit=kw)
     if cfg["slicer"] == "noi":
-        return slicemon.remember_configuration(NumberOfIntervalsSlicer(cfg["n_intervals"], reference=_ref(cfg["reference"]), include_max=cfg["include_max"], value_range=vr, **kw))
-    return slicemon.remember_configuration(PointsPerIntervalSlicer(cfg["n_points"], reference=_ref(cfg["reference"]), last_full=cfg["last_full"], **kw))
+        return slicemon.remember_configuration(NumberOfIntervalsSlicer(cfg["n_intervals"], reference=_ref(cfg["reference"]), include_max=cfg["include_max"], value_range=vr, **kw), _explicit=kw)
+    return slicemon.remember_configuration(PointsPerIntervalSlicer(cfg["n_points"], reference=_ref(cfg["reference"]), last_full=cfg["last_full"], **kw), _explicit=kw)
 
 
 def _drive(slicer, data):
@@ -132,6 +136,20 @@ def run_case(case, ctx):
         repotests.run(ctx, case["files"])
         ctx.notes["n_eval"] = sum(v for k, v in ctx.counts.items() if k.startswith("slice.calls["))
         ctx.notes["n_nontrivial"] = 0
+        return
+    if case["kind"] == "ppi-default":
+        from virocon import PointsPerIntervalSlicer
+
+        rng = np.random.default_rng(case["sub"])
+        data = np.round(rng.weibull(1.5, case["n"]) * 3, 2)
+        slicer = slicemon.remember_configuration(PointsPerIntervalSlicer(case["n_points"], last_full=case["last_full"]), _explicit={})
+        ctx.cls("slicer", "ppi-documented-defaults")
+        ctx.sample = {"kind": "ppi-default", "n_points": case["n_points"], "n": case["n"], "last_full": case["last_full"]}
+        _drive(slicer, data)
+        ctx.nontrivial = True
+        ctx.sig = f"ppi-default:{case['n_points']}:{case['n']}:{case['last_full']}"
+        ctx.notes["n_eval"] = 1
+        ctx.notes["n_nontrivial"] = 1
         return
     if case["kind"] == "lattice":
         w, L, cfg = case["w"], case["L"], case["cfg"]
@@ -175,9 +193,13 @@ def run_case(case, ctx):
             vr = [None, (0.0, float(np.max(data))), (0.0, scale), (1.0, 3 * scale)][int(rng.integers(4))]
             cfg = {"slicer": "noi", "n_intervals": int(rng.choice([1, 3, 7, 10, 25])), "include_max": bool(rng.integers(2)), "value_range": vr, "min_n_points": mnp, "min_n_intervals": mni, "reference": str(rng.choice(["center", "left", "right", "median"]))}
         else:
-            cfg = {"slicer": "ppi", "n_points": int(rng.choice([7, 25, 50, 130])), "last_full": bool(rng.integers(2)), "min_n_points": [None, 0, 10][int(rng.integers(3))], "min_n_intervals": mni, "reference": str(rng.choice(["median", "mean"]))}
+            cfg = {"slicer": "ppi", "n_points": int(rng.choice([7, 25, 50, 130, 100, 333])), "last_full": bool(rng.integers(2)), "min_n_points": [None, 0, 10, None][int(rng.integers(4))], "min_n_intervals": [mni, None][int(rng.integers(2))], "reference": str(rng.choice(["median", "mean"]))}
             if cfg["n_points"] > n:
                 cfg["n_points"] = n
+            if cfg["n_points"] > 60 and rng.random() < 0.5:
+                # a last / first chunk of 50 .. n_points-1 observations (kept under the documented default min_n_points = 50)
+                keep = (n // cfg["n_points"]) * cfg["n_points"] + int(rng.integers(50, cfg["n_points"]))
+                data = data[: min(keep, n)] if keep <= n else data
         ctx.cls("slicer", cfg["slicer"])
         ctx.cls("order", order)
         ctx.sample = {"kind": "random", "cfg": cfg, "n": n, "order": order, "decimals": dec, "head": data[:6].tolist()}
